@@ -17,7 +17,8 @@ class Trace:
     """What one update_orientations call did."""
 
     def __init__(self):
-        self.rhs_calls = []      # dict(t, y, L, s, Sd, out | exc)
+        self.rhs_calls = []      # dict(t, y, out): first evaluations
+        self.rhs_tail = []       # last evaluations of the update
         self.step_ys = []        # solver.y after each step (copy, before the GBS write-back)
         self.y_start = None
         self.error = None
@@ -45,9 +46,15 @@ class Recorder:
 
                 def fun2(t, y):
                     out = fun(t, y)
-                    if tr is not None and len(tr.rhs_calls) < rec.max_rhs:
-                        tr.rhs_calls.append(dict(t=float(t), y=np.array(y, dtype=float).copy(),
-                                                 out=None if out is None else np.array(out, dtype=float).copy()))
+                    if tr is not None:
+                        call = dict(t=float(t), y=np.array(y, dtype=float).copy(),
+                                    out=None if out is None else np.array(out, dtype=float).copy())
+                        if len(tr.rhs_calls) < rec.max_rhs:
+                            tr.rhs_calls.append(call)          # the first evaluations ...
+                        else:
+                            tr.rhs_tail.append(call)           # ... and the last ones (ring buffer)
+                            if len(tr.rhs_tail) > rec.max_rhs:
+                                tr.rhs_tail.pop(0)
                     return out
 
                 super().__init__(fun2, t0, y0, t_bound, **kw)
@@ -61,7 +68,7 @@ class Recorder:
 
         self._orig = self.pm.LSODA
         self.pm.LSODA = RecLSODA
-        self.max_rhs = 12
+        self.max_rhs = 5
         return self
 
     def __exit__(self, *a):
@@ -96,6 +103,10 @@ def make_L(rng, kind, scale=1.0):
         L1 = G.velocity_gradient(rng, "simple") * scale
         w = float(rng.uniform(0.5, 3.0))
         return (lambda t, x: L0 * np.cos(w * t * scale) ** 2 + L1 * np.sin(w * t * scale) ** 2), dict(kind=kind)
+    if kind == "stopping":      # the flow stops (exactly zero velocity gradient) part-way through
+        L0 = G.velocity_gradient(rng, "simple") * scale
+        ts = float(rng.uniform(0.05, 0.3)) / max(scale, 1e-300)
+        return (lambda t, x: L0.copy() if t < ts else np.zeros((3, 3))), dict(kind=kind, t_stop=ts)
     if kind == "position":
         L0 = G.velocity_gradient(rng, "general") * scale
         L1 = G.velocity_gradient(rng, "pure") * scale
@@ -103,7 +114,7 @@ def make_L(rng, kind, scale=1.0):
     raise ValueError(kind)
 
 
-L_FAMILIES = ["simple", "pure", "axisym", "general", "trace", "time", "position"]
+L_FAMILIES = ["simple", "pure", "axisym", "general", "trace", "time", "position", "stopping"]
 
 
 def init_texture(rng, n, kind):
